@@ -198,7 +198,9 @@ def case(g, tier, ci):
                     ops.append({"op": "sq.elChangeArg", "id": side, "pos": pos, "ch": ch, "name": n,
                                 "arg": enc(r.choice(FN_PARAMS[f])), "value": enc(r.choice([0.375, -0.625, 1.0]))})
         else:
-            ops.append({"op": r.choice(["sq.points", "sq.duration", "sq.check"]), "id": side})
+            ops.append(r.choice([{"op": "sq.points", "id": side}, {"op": "sq.duration", "id": side}, {"op": "sq.check", "id": side},
+                                 {"op": "sq.forge", "id": side, "delays": True, "filters": True, "time": False},
+                                 {"op": "sq.forge", "id": side, "delays": True, "filters": True, "time": False}]))
         muts.append(1)
     return ops + observe("sq", "a", "b")
 
